@@ -3,12 +3,9 @@ import SfxModel.FromStr
 /-
   C08 — Parsing returns the correctly rounded value of the literal, or a precise error.
 
-  FULL statement: `C08_statement` below.  STATUS: the executable model `FromStr.fromStr` (539 lines, function by function after
-  `from_str.rs`) is tied to the code by the correspondence check (0 disagreements on 3.1 M requests incl. all 507 layouts, both
-  profiles) and every implementation answer is judged against the exact specification `TextSpec.parseExact` (the literal's exact
-  rational value rounded half-even to the grid) by the driver on every run.  PROVED so far: the specification-side lemmas below;
-  the model-equals-specification theorems (`parse_bounds_spec`, digit folds, power-of-two fractions, decimal fast/slow path) are in
-  progress (see MANIFEST level text).
+  This file holds the FULL statement `C08_statement` (for the overflowing form `from_str_{i,u}N` that every public form wraps) and the
+  specification-side lemmas.  The proof (`C08.holds`) and the statement for the four public forms (`C08.forms_hold`) are in
+  SfxProps/C08Holds.lean (a separate file only because the proof files import this statement).
 -/
 namespace Sfx.C08
 open Sfx.TextSpec
